@@ -106,6 +106,8 @@ func c02Check(r *vhlib.Run, m *vhlib.Model, data []byte, kind string) {
 }
 
 func runC02(r *vhlib.Run) {
+	// brotli.Reader itself against its implementation-level model, per Read call (Brotli/Impl.v)
+	wbrimpl(r)
 	rng := r.Rng
 	// the brotli sliding window against its implementation-level model (Window/DictBr.v)
 	wdictbr(r)
